@@ -198,6 +198,7 @@ func (c *Ctx) Finish() int {
 	c.mu.Lock()
 	defer c.mu.Unlock()
 	dir := VerifDir()
+	fmt.Println() // the code under test prints to stdout without newlines; contract lines must start a line
 	_ = os.MkdirAll(filepath.Join(dir, "evidence"), 0o755)
 	_ = os.MkdirAll(filepath.Join(dir, "replays"), 0o755)
 
